@@ -361,10 +361,65 @@ def _returns_to_breaks(loop, target) -> None:
     loop.body = rewrite(loop.body)
 
 
+class _ReplaceNode(ast.NodeTransformer):
+    def __init__(self, target, value):
+        self.target, self.value = target, value
+
+    def visit(self, node):
+        if node is self.target:
+            return ast.copy_location(self.value, node)
+        return super().visit(node)
+
+
+class _ReplaceName(ast.NodeTransformer):
+    def __init__(self, name, value):
+        self.name, self.value = name, value
+
+    def visit_Name(self, n):
+        return self.value if n.id == self.name else n
+
+
+def _hoistable(root: ast.AST, call: ast.Call) -> bool:
+    """`call` is evaluated exactly once whenever `root` is, and everything else in `root` is a name or a constant"""
+    def reach(node) -> bool:
+        if node is call:
+            return True
+        if isinstance(node, ast.Call):
+            return isinstance(node.func, ast.Name) and (any(reach(a) for a in node.args) or any(reach(k.value) for k in node.keywords))
+        if isinstance(node, (ast.Tuple, ast.List)):
+            return any(reach(e) for e in node.elts)
+        if isinstance(node, ast.BinOp):
+            return reach(node.left) or reach(node.right)
+        if isinstance(node, ast.UnaryOp):
+            return reach(node.operand)
+        return False
+
+    if not reach(root):
+        return False
+    inside = {id(x) for x in ast.walk(call)}
+    for x in ast.walk(root):
+        if id(x) in inside:
+            continue
+        if isinstance(x, ast.Call) and not isinstance(x.func, ast.Name):
+            return False
+        if isinstance(x, ast.Call) and x is not root:
+            return False
+        if not isinstance(x, (ast.Call, ast.Name, ast.Constant, ast.Tuple, ast.List, ast.BinOp, ast.UnaryOp, ast.keyword, ast.expr_context, ast.operator, ast.unaryop)):
+            return False
+    return True
+
+
 class _Inliner:
     def __init__(self, helpers: dict[str, ast.FunctionDef]):
         self.helpers = helpers
         self.count = 0
+
+    def _helper_of(self, call: ast.Call):
+        if isinstance(call.func, ast.Name) and call.func.id in self.helpers:
+            return self.helpers[call.func.id]
+        if isinstance(call.func, ast.Attribute) and isinstance(call.func.value, ast.Name) and call.func.value.id == "self" and f"self.{call.func.attr}" in self.helpers:
+            return self.helpers[f"self.{call.func.attr}"]
+        return None
 
     def block(self, stmts: list, following: list) -> list:
         out = []
@@ -433,6 +488,32 @@ class _Inliner:
                         ident = isinstance(new, ast.Assign) and len(new.targets) == 1 and isinstance(new.targets[0], ast.Name) and isinstance(new.value, ast.Name) and new.value.id == new.targets[0].id
                         tail = [] if ident else [new]
                         return self.block(body[:-1], tail + rest) + tail
+        # (H) a multi-statement helper called inside the expression of a simple statement, where nothing that is
+        # evaluated before or after it in that statement can tell the difference (names and constants only, the call
+        # is evaluated unconditionally, the helper assigns no variable of its host): the call gets a statement of
+        # its own in front, which the forms above then substitute
+        if h is None and isinstance(st, (ast.Return, ast.Assign, ast.Expr)) and st.value is not None:
+            inner = [c for c in ast.walk(st.value) if c is not st.value and isinstance(c, ast.Call) and self._helper_of(c) is not None]
+            if len(inner) == 1:
+                c = inner[0]
+                hh = self._helper_of(c)
+                hb = _body_wo_doc(hh)
+                rets = _returns(hb)
+                multi = not (len(hb) == 1 and isinstance(hb[0], ast.Return))
+                if multi and len(rets) == 1 and rets[0] is hb[-1] and rets[0].value is not None and not _nonlocals(hh) and _hoistable(st.value, c):
+                    tmp = f"_hoisted{self.count}"
+                    taken = {n_.id for n_ in ast.walk(st) if isinstance(n_, ast.Name)} | {n_.id for x_ in rest for n_ in ast.walk(x_) if isinstance(n_, ast.Name)}
+                    if tmp not in taken:
+                        assign = ast.copy_location(ast.Assign(targets=[ast.Name(id=tmp, ctx=ast.Store())], value=c), st)
+                        st.value = _ReplaceNode(c, ast.Name(id=tmp, ctx=ast.Load())).visit(st.value)
+                        ast.fix_missing_locations(assign)
+                        ast.fix_missing_locations(st)
+                        before = self.count
+                        out = self.block([assign], [st] + rest)
+                        if self.count > before:
+                            return out + [st]
+                        # not substituted after all: put the call back
+                        st.value = _ReplaceName(tmp, c).visit(st.value)
         # recurse into compound statements
         for fld in ("body", "orelse", "finalbody"):
             b = getattr(st, fld, None)
